@@ -1,5 +1,9 @@
 import GoSQLXModel.Proofs.LintLemmas
 import GoSQLXModel.Gen.LintKeywords
+import GoSQLXModel.Proofs.LintLex
+import GoSQLXModel.Proofs.LintL003
+import GoSQLXModel.Proofs.LintLex2
+import GoSQLXModel.Model.LexGen
 /-!
 # C17 — Linter flags exactly what it names; text rewriters keep meaning and converge
 
@@ -9,16 +13,28 @@ import GoSQLXModel.Gen.LintKeywords
 
 The five `Fix` functions are modelled statement by statement (`Model/Lint.lean`) and tied to the code by
 byte-exact correspondence on every generated text.  Proved for **all** texts:
+* `fixL003_idempotent` (`Proofs/LintL003.lean`) — the blank-line fixer converges, for every classifier and every limit:
+  after its first pass no run of blank lines exceeds the limit, so the trailing loop and a second pass change nothing;
 * `fixL001_idempotent`, `fixL002_idempotent`, `fixL010_idempotent` — the fixers converge (via the generic
   `map_fix_idempotent`: a per-line rewriter that introduces no line feed and is idempotent on lines makes an
   idempotent fixer; `split_join` / `join_split` are the Go `strings.Split`/`Join` round trips);
 * `fixL001_relint_clean` — after L001 no line ends in a blank;
 * `fixL010_local` — the rewriter leaves every stretch it regards as quoted byte-identical (`quotedOf`).
-Full statement `tokens_preserved` (the lexer's token sequence is unchanged) is *not* proved: it is false for the
+* `l001_keeps_tokens` (`Proofs/LintLex.lean`) — **the trailing-whitespace fixer against the tokenizer model**: for every
+  *tame* text of C04's reference grammar (every lexeme on one line, comments on one line, a line comment not ending in a
+  blank, blank runs written as one piece — any length, any mix of words, two-word keywords, numbers, operators, literals,
+  quoted identifiers, comments), the fixed text is read by the tokenizer as the same sequence of (kind, value) pairs and
+  the same comments.  The proof characterises the fixer without lines (`fixL001_eq_trimC`: a blank goes exactly when the
+  trimmed remainder is empty or starts a line), pushes it through lexemes, blank runs and comments (`seq_trim`), shows the
+  junction check still passes (a blank after a lexeme can only become a line end or the end of the text), and applies
+  `tokenize_spell2` to both texts.
+* `l002_keeps_tokens` (`Proofs/LintLex2.lean`) — the same for the mixed-indentation fixer: without lines it is a
+  left-to-right pass with one bit of state (`fixL002_eq_expC`); through a tame text it only lengthens blank runs.
+The full statement `tokens_preserved` for *all* texts is *not* provable: it is false for the
 code as written whenever the fixers' per-line quote scan disagrees with the lexer (multi-line literals,
 quotes in comments, backtick / dollar quoting) — `multiline_literal_counterexample` etc. exhibit that on the
 model; those shapes are the listed known findings, and on texts without them the oracle demands exact
-preservation.  L003 / L007 convergence is decided by the oracle only (partial).
+preservation.  L007 convergence is decided by the oracle only (partial).
 -/
 namespace GoSQLXModel.Props.C17
 open GoSQLXModel GoSQLXModel.Lint
@@ -28,6 +44,12 @@ theorem fixL001_idempotent (s : List Char) : fixL001 (fixL001 s) = fixL001 s :=
 
 theorem fixL002_idempotent (s : List Char) : fixL002 (fixL002 s) = fixL002 s :=
   map_fix_idempotent fixLineL002 fixLineL002_no_nl fixLineL002_idem s
+
+theorem fixL003_idempotent (cls : CharClass) (max : Nat) (s : List Char) :
+    fixL003 cls max (fixL003 cls max s) = fixL003 cls max s :=
+  Lint.fixL003_idempotent cls max s
+
+example : fixL003 .ascii 1 "a\n\n\n \n\nb\n\n\n".toList = "a\n\nb\n".toList := by decide +kernel
 
 theorem fixL010_idempotent (s : List Char) : fixL010 (fixL010 s) = fixL010 s :=
   map_fix_idempotent fixLineL010 fixLineL010_no_nl fixLineL010_idem s
@@ -57,6 +79,57 @@ theorem fixL010_line_count (s : List Char) : (splitLines (fixL010 s)).length = (
     obtain ⟨l0, hl0, rfl⟩ := List.mem_map.mp hl
     exact fixLineL010_no_nl l0 (splitLines_no_nl s l0 hl0)
   rw [split_join _ (by simp [splitLines_ne_nil]) hno]; simp
+
+/-- no operator of today's table contains a blank or a line end (side condition of `l001_keeps_tokens`) -/
+theorem gen_ops_no_ws : Lex.opsNoWS Lex.genLexTables = true := by decide +kernel
+
+/-- **C17 (L001 keeps the tokens)** at today's tables, for every classifier that treats ASCII as the reference surface
+    assumes (the Go classifier does: `Props.C04.go_class_ascii_ok`) -/
+theorem l001_keeps_tokens (cls : CharClass) (hA : Lex.AsciiOK cls) (lead : List Lex.Piece) (items : List Lex.Item2)
+    (hlead : lead.all Lex.Piece.ok = true) (hleadT : lead.all Lex.Piece.tame = true) (hleadN : Lex.sepNorm lead = true)
+    (hok : Lex.seqOK cls Lex.genLexTables items = true) (htame : Lex.tameSeq cls Lex.genLexTables items = true)
+    (hsize : (Lex.sepBytes lead ++ Lex.flat2 items).length ≤ Lex.genLexTables.maxInput)
+    (hcount : items.length ≤ Lex.genLexTables.maxTokens) :
+    ∃ toks cs toks' cs', Lex.tokenize cls Lex.genLexTables (Lex.sepBytes lead ++ Lex.flat2 items) = .ok toks cs ∧
+      Lex.tokenize cls Lex.genLexTables (Lex.asBytes (fixL001 (Lex.asChars (Lex.sepBytes lead ++ Lex.flat2 items)))) = .ok toks' cs' ∧
+      toks'.map Lex.Tok.key = toks.map Lex.Tok.key ∧ cs'.map Lex.Comment.key = cs.map Lex.Comment.key :=
+  Lex.fixL001_keeps_tokens cls Lex.genLexTables hA gen_ops_no_ws lead items hlead hleadT hleadN hok htame hsize hcount
+
+/-- **C17 (L002 keeps the tokens)** -/
+theorem l002_keeps_tokens (cls : CharClass) (hA : Lex.AsciiOK cls) (lead : List Lex.Piece) (items : List Lex.Item2)
+    (hlead : lead.all Lex.Piece.ok = true) (hleadT : lead.all Lex.Piece.tame = true)
+    (hok : Lex.seqOK cls Lex.genLexTables items = true) (htame : Lex.tameSeq cls Lex.genLexTables items = true)
+    (hsize : 4 * (Lex.sepBytes lead ++ Lex.flat2 items).length ≤ Lex.genLexTables.maxInput)
+    (hcount : items.length ≤ Lex.genLexTables.maxTokens) :
+    ∃ toks cs toks' cs', Lex.tokenize cls Lex.genLexTables (Lex.sepBytes lead ++ Lex.flat2 items) = .ok toks cs ∧
+      Lex.tokenize cls Lex.genLexTables (Lex.asBytes (fixL002 (Lex.asChars (Lex.sepBytes lead ++ Lex.flat2 items)))) = .ok toks' cs' ∧
+      toks'.map Lex.Tok.key = toks.map Lex.Tok.key ∧ cs'.map Lex.Comment.key = cs.map Lex.Comment.key :=
+  Lex.fixL002_keeps_tokens cls Lex.genLexTables hA gen_ops_no_ws lead items hlead hleadT hok htame hsize hcount
+
+/-- non-vacuity: a text with trailing blanks after code, after a literal that contains blanks, on a blank line and at the
+    end; the fixer changes it, the hypotheses hold -/
+def l001Lead : List Lex.Piece := [.blanks [32, 32, 10]]
+def l001Items : List Lex.Item2 :=
+  [(.word (Lex.strBytes "select"), [.blanks [32, 32]]), (.str [.ch 97, .ch 32, .ch 32], [.blanks [32, 9, 10, 32, 10, 32, 32]]),
+   (.word (Lex.strBytes "from"), [.blanks [32]]), (.word (Lex.strBytes "t"), [.blanks [32], .line (Lex.strBytes " c"), .blanks [32, 32]]),
+   (.op [59], [.blanks [9, 32]])]
+example : l001Lead.all Lex.Piece.ok = true ∧ l001Lead.all Lex.Piece.tame = true ∧ Lex.sepNorm l001Lead = true ∧
+    Lex.seqOK .ascii Lex.genLexTables l001Items = true ∧ Lex.tameSeq .ascii Lex.genLexTables l001Items = true := by decide +kernel
+example : Lex.sepBytes l001Lead ++ Lex.flat2 l001Items = Lex.strBytes "  
+select  'a  ' 	
+ 
+  from t -- c
+  ;	 " := by decide +kernel
+example : Lex.asBytes (fixL001 (Lex.asChars (Lex.sepBytes l001Lead ++ Lex.flat2 l001Items))) =
+    Lex.strBytes "
+select  'a  '
+
+  from t -- c
+  ;" := by decide +kernel
+
+example : Lex.asBytes (fixL002 (Lex.asChars (Lex.sepBytes l001Lead ++ Lex.flat2 l001Items))) =
+    Lex.strBytes "  \nselect  'a  ' \t\n \n  from t -- c\n  ;\t " := by decide +kernel
+example : Lex.asBytes (fixL002 (Lex.asChars (Lex.strBytes "\t a\tb\n \t\tc"))) = Lex.strBytes "     a\tb\n         c" := by decide +kernel
 
 /-- non-vacuity -/
 example : fixL010 "a  b   'c  d'  e".toList = "a b 'c  d' e".toList := by decide
